@@ -60,7 +60,10 @@ Section CopyFrom.
         (fix go (l : list field) (st : fstate) {struct l} : res fstate :=
            match l with
            | [] => Ok st
-           | f :: r => do st' <- from_field f attrs st; go r st'
+           | f :: r =>
+               (* the placeholder of a message without fields exists in the schema only *)
+               if fi_placeholder (f_info f) then go r st
+               else do st' <- from_field f attrs st; go r st'
            end) fs (obj0, snd st)
     end
 
